@@ -365,6 +365,24 @@ func registerExternals(e *Engine) {
 	// math/rand seeding (607 words of additive-lagged-Fibonacci state): skipped —
 	// no kernel's property depends on the values of the pseudo random stream
 	x["(*math/rand.rngSource).Seed"] = func(p *Path, th *Thread, fr *frame, a []Value) Value { return nil }
+	// package flag: every flag keeps its default value
+	flagVal := func(p *Path, th *Thread, fr *frame, a []Value) Value {
+		cell := new(Value)
+		*cell = a[1]
+		return cell
+	}
+	for _, n := range []string{"flag.String", "flag.Int", "flag.Bool", "flag.Uint64", "flag.Int64", "flag.Duration", "flag.Uint", "flag.Float64"} {
+		x[n] = flagVal
+	}
+	x["flag.Parse"] = func(p *Path, th *Thread, fr *frame, a []Value) Value { return nil }
+	// context deadlines / cancellation: never fire inside the engine (timeouts are
+	// outside every claim); the returned cancel function is a no-op
+	ctxNoop := func(p *Path, th *Thread, fr *frame, a []Value) Value {
+		return Tuple{a[0], &nativeFn{f: func(p *Path, th *Thread) {}}}
+	}
+	x["context.WithTimeout"] = ctxNoop
+	x["context.WithDeadline"] = ctxNoop
+	x["context.WithCancel"] = ctxNoop
 	x["runtime.Callers"] = func(p *Path, th *Thread, fr *frame, a []Value) Value { return mkInt(0) }
 	x["github.com/pkg/errors.callers"] = func(p *Path, th *Thread, fr *frame, a []Value) Value { return (*Value)(nil) }
 	x["runtime/debug.Stack"] = func(p *Path, th *Thread, fr *frame, a []Value) Value { return []Value{} }
